@@ -16,6 +16,10 @@ Hand model of the mass-property code of the model compiler (C35):
                                  `mjuu_globalinertia` / `mjuu_offcenter`, principal axes by `fullInertia`.
 * `accumulateInertia`          — `mjCBody::AccumulateInertia` (fusing a static child body).
 * `bodyFinish`                 — the `boundmass` / `boundinertia` / triangle-inequality step of `mjCBody::Compile`.
+* `bodyCompile`                — the inertial part of `mjCBody::Compile`: explicit inertial clause (`mass`, `ipos`,
+                                 `iquat`, diagonal `inertia` or `fullinertia`), `inertiafromgeom` FALSE/TRUE/AUTO,
+                                 `inertiagrouprange`, then `bodyFinish` with the compiler's bounds / `balanceinertia`.
+* `setTotalmass`               — `mj_setTotalmass` (compiler option `settotalmass`).
 
 Mesh volume / inertia integrals (user_mesh.cc) are NOT modelled.
 Generic over `MjNum α` (run on `Float` by lean/Drivers/C35.lean, reasoned about on `ℝ`).  Core Lean only.
@@ -370,5 +374,84 @@ def accumulateInertia (r : BodyMI α) (opos : V3 α) (oquat : Q α) (o : BodyMI 
   match fullInertia t.xx t.yy t.zz t.xy t.xz t.yz with
   | .error e => .error e
   | .ok (q, ev) => .ok ⟨mass, ipos, q, ev⟩
+
+/-! ### the inertial part of `mjCBody::Compile` (explicit inertial clause, compiler options) -/
+
+/-- the inertial fields of `mjsBody` as `mjCBody::Compile` reads them after `CopyFromSpec`:
+    `ipos = none` is `!mjuu_defined(ipos[0])` (the `mjs_defaultBody` NaN), `fullinertia = none` is
+    `!mjuu_defined(fullinertia[0])`; `fullinertia` is in the array order `(xx, yy, zz, xy, xz, yz)`;
+    the inertial orientation alternative `ialt` is `mjORIENTATION_QUAT` -/
+structure BodyInertial (α : Type) where
+  mass : α
+  ipos : Option (V3 α)
+  iquat : Q α
+  inertia : V3 α
+  fullinertia : Option (Sym6 α)
+  explicitinertial : Bool
+
+/-- `mjtInertiaFromGeom`: `mjINERTIAFROMGEOM_FALSE`, `_TRUE`, `_AUTO` -/
+inductive FromGeom where
+  | no | yes | auto
+  deriving DecidableEq, Repr
+
+/-- the `mjsCompiler` fields read by the inertial part of `mjCBody::Compile` / `InertiaFromGeom` -/
+structure MassOpts (α : Type) where
+  boundmass : α
+  boundinertia : α
+  balance : Bool
+  fromgeom : FromGeom
+  glo : Int
+  ghi : Int
+
+/-- a geom of the body: its `group` and the `(mass_, pos, quat, inertia)` that `mjCGeom::Compile` gives it when
+    `inferinertia` is true (a geom with `inferinertia = false` keeps `mass_ = 0` and is never selected) -/
+structure GeomIn (α : Type) where
+  group : Int
+  mi : GeomMI α
+
+/-- the inertial part of `mjCBody::Compile` for a body with `id > 0`, no frame and body frame `(bpos, bquat)`
+    (`bquat` already normalised):  normalise `iquat`; reject `fullinertia` together with a non-zero diagonal
+    inertia; `mjuu_fullInertia` when `fullinertia` is defined; geoms infer their inertia iff
+    `!explicitinertial || inertiafromgeom == TRUE` and their group is in `inertiagrouprange`;
+    `InertiaFromGeom` iff `inertiafromgeom == TRUE || (ipos undefined && inertiafromgeom == AUTO)`;
+    an undefined `ipos` copies the body frame; then `bodyFinish`.  `.error` = a thrown `mjCError`. -/
+def bodyCompile (o : MassOpts α) (bpos : V3 α) (bquat : Q α) (sp : BodyInertial α) (geoms : List (GeomIn α)) :
+    Except String (BodyMI α) :=
+  let iquat0 := (normvec4 sp.iquat).1
+  let nz := fun (x : α) => !(MjNum.beq x (L 0))
+  let r1 : Except String (Q α × V3 α) :=
+    match sp.fullinertia with
+    | none => .ok (iquat0, sp.inertia)
+    | some f =>
+      if nz sp.inertia.x || nz sp.inertia.y || nz sp.inertia.z then
+        .error "fullinertia and diagonal inertia cannot both be specified"
+      else fullInertia f.xx f.yy f.zz f.xy f.xz f.yz
+  match r1 with
+  | .error e => .error e
+  | .ok (iquat, inertia) =>
+    let infer := !sp.explicitinertial || decide (o.fromgeom = .yes)
+    let sel : List (GeomMI α) :=
+      if infer then (geoms.filter (fun g => decide (o.glo ≤ g.group ∧ g.group ≤ o.ghi))).map (·.mi) else []
+    let call := decide (o.fromgeom = .yes) || (sp.ipos.isNone && decide (o.fromgeom = .auto))
+    let r2 : Except String (Option (BodyMI α)) := if call then inertiaFromGeom sel else .ok none
+    match r2 with
+    | .error e => .error e
+    | .ok (some b) => bodyFinish o.boundmass o.boundinertia o.balance b
+    | .ok none =>
+      match sp.ipos with
+      | some p => bodyFinish o.boundmass o.boundinertia o.balance ⟨sp.mass, p, iquat, inertia⟩
+      | none => bodyFinish o.boundmass o.boundinertia o.balance ⟨sp.mass, bpos, bquat, inertia⟩
+
+/-- `mj_setTotalmass(m, newmass)` on the list of bodies `1 … nbody-1` (`mj_getTotalmass` sums from 0 in order;
+    `mju_max(a, b) = a >= b ? a : b`) -/
+def setTotalmass (newmass : α) (bs : List (BodyMI α)) : List (BodyMI α) :=
+  let mx := fun (a c : α) => if c ≤ a then a else c
+  let total := bs.foldl (fun s b => s + b.mass) (L 0)
+  let scale := mx mjMINVAL (newmass / mx mjMINVAL total)
+  bs.map (fun b => ⟨b.mass * scale, b.ipos, b.iquat, ⟨b.inertia.x * scale, b.inertia.y * scale, b.inertia.z * scale⟩⟩)
+
+/-- `if (compiler.settotalmass > 0) mj_setTotalmass(m, compiler.settotalmass)` at the end of `mjCModel::CopyTree…` -/
+def applyTotalmass (settotalmass : α) (bs : List (BodyMI α)) : List (BodyMI α) :=
+  if L 0 < settotalmass then setTotalmass settotalmass bs else bs
 
 end MjProof.MassProps
